@@ -185,7 +185,7 @@ fn body_nx1<const B: usize, const L: usize>(c: &Case, rec: &mut Rec) -> R {
 // ------------------------------------------------------------------ adc_n / sbb_n
 
 fn strat_adc_n(_: usize) -> BoxedStrategy<Case> {
-    (slice(MAXLEN), slice(MAXLEN), 0usize..3, prop_oneof![4 => Just(0u64), 4 => Just(1u64), 1 => limb()], 0u8..5)
+    (slice(MAXLEN), slice(MAXLEN), 0usize..3, prop_oneof![4 => Just(0u64), 4 => Just(1u64), 3 => limb(), 1 => Just(2u64), 1 => Just(u64::MAX)], 0u8..5)
         .prop_map(|(lhs, mut rhs, extra, cin, rel)| {
             // rhs.len() >= lhs.len() (only the low lhs.len() limbs of rhs are read)
             rhs.resize(lhs.len() + extra, u64::MAX);
@@ -205,16 +205,9 @@ fn body_adc_n<const B: usize, const L: usize>(c: &Case, rec: &mut Rec) -> R {
     let n = l0.len();
     let m = pw(n);
     let rl = big(&r0[..n]);
-    if cin > 1 {
-        // carries other than 0/1 are never passed by any caller: no-panic only
-        rec.class("carry_in>1(no-panic only)");
-        let mut lhs = l0.clone();
-        rec.no_panic("adc_n", catch(|| alg::adc_n(&mut lhs, r0, cin)))?;
-        let mut lhs = l0.clone();
-        rec.no_panic("sbb_n", catch(|| alg::sbb_n(&mut lhs, r0, cin)))?;
-        rec.eval(2);
-        return Ok(());
-    }
+    // the carry / borrow parameter is a full word (u64), as the signatures state: the exact
+    // identities below are asserted for every word, not only for 0 and 1
+    rec.class_if(cin > 1, "carry_in>1");
     if n > 0 {
         rec.nontrivial(&(l0, r0, cin));
     }
@@ -227,15 +220,18 @@ fn body_adc_n<const B: usize, const L: usize>(c: &Case, rec: &mut Rec) -> R {
         // with n == 0 the carry passes through unchanged
         rec.eqc("adc_n", "carry_wrong", &u(cy), &(&t / &m))?;
         rec.class_if(t >= m && n > 0, "adc_n_carry_out");
+        rec.class_if(t >= &m * 2u32 && n > 0, "adc_n_carry_out=2");
     }
     {
         let mut lhs = l0.clone();
         let bw = rec.no_panic("sbb_n", catch(|| alg::sbb_n(&mut lhs, r0, cin)))?;
         let sub = &rl + u(cin);
         let l_old = big(l0);
-        let k = if sub > l_old { BigUint::one() } else { BigUint::zero() };
+        // exact borrow word k: lhs_old - rhs - borrow_in = lhs_new - k * 2^(64n), 0 <= lhs_new < 2^(64n)
+        let k = if sub > l_old { (&sub - &l_old + &m - 1u32) / &m } else { BigUint::zero() };
         // for n == 0: nothing to subtract from; borrow passes through
         let (new, k) = if n == 0 { (BigUint::zero(), u(cin)) } else { (&l_old + &k * &m - &sub, k) };
+        rec.class_if(k > BigUint::one() && n > 0, "sbb_n_borrow_out=2");
         rec.eqc("sbb_n", "limbs_wrong", &lhs, &limbs_of(&new, n))?;
         rec.eqc("sbb_n", "borrow_wrong", &u(bw), &k)?;
         rec.class_if(!k.is_zero() && n > 0, "sbb_n_borrow_out");
@@ -260,7 +256,9 @@ fn enum_words(which: usize, f: &mut dyn FnMut(&Case) -> R) -> R {
     let al = word_alphabet();
     for &a in &al {
         for &b in &al {
-            for c in 0..2u64 {
+            // adc / sbb take a full carry word; carrying_add / borrowing_sub a bool
+            let carries: &[u64] = if which < 2 { &[0, 1, 2, 3, 1 << 32, 1 << 63, u64::MAX - 1, u64::MAX] } else { &[0, 1] };
+            for &c in carries {
                 f(&Case::new().n(a).n(b).n(c).n(which as u64))?;
             }
         }
@@ -269,8 +267,9 @@ fn enum_words(which: usize, f: &mut dyn FnMut(&Case) -> R) -> R {
 }
 
 fn strat_words(_: usize) -> BoxedStrategy<Case> {
-    (limb(), limb(), 0u64..2, 0u64..4, 0u8..4)
+    (limb(), limb(), prop_oneof![2 => 0u64..2, 1 => limb()], 0u64..4, 0u8..4)
         .prop_map(|(a, b, c, which, rel)| {
+            let c = if which >= 2 { c & 1 } else { c };
             let b = match rel {
                 0 => !a,               // a + b = all ones
                 1 => (!a).wrapping_add(1), // a + b = 2^64
@@ -288,7 +287,8 @@ fn body_words<const B: usize, const L: usize>(c: &Case, rec: &mut Rec) -> R {
     rec.sample(|| json!({"kernel": kname, "lhs": format!("{a:#x}"), "rhs": format!("{b:#x}"), "carry_in": ci}));
     let sum = a as u128 + b as u128 + ci as u128;
     let diff = (a as i128) - (b as i128) - (ci as i128);
-    let sub_e = (diff as u64, (diff < 0) as u64); // two's complement low word, borrow
+    // two's complement low word and the exact borrow word (0, 1 or 2): diff = low - borrow * 2^64
+    let sub_e = (diff as u64, ((diff as u64 as i128 - diff) >> 64) as u64);
     match which {
         0 => chk!(rec, "adc", alg::adc(a, b, ci), (sum as u64, (sum >> 64) as u64)),
         1 => chk!(rec, "sbb", alg::sbb(a, b, ci), sub_e),
@@ -402,10 +402,10 @@ fn body_cmp<const B: usize, const L: usize>(c: &Case, rec: &mut Rec) -> R {
 fn main() {
     let spec = PropSpec {
         id: "C15",
-        rule_text: "slice-level generators: accumulator/operand lengths 0..=10 independently; contents from the boundary alphabet reshaped with zero low / high / middle limbs, all-ones limbs and runs, accumulators pre-filled with all-ones; equal lengths where a kernel states it (addmul_n panics on unequal lengths, which is checked); adc_n/sbb_n with rhs at least as long as lhs and carry in {0,1} (larger carries: no-panic only); scalar adc/sbb/carrying_add/borrowing_sub enumerated over the full square of a ~500-word boundary alphabet x both carries; shift amounts 0..=63; cmp on equal-length slices incl. equal / one-limb-different pairs. Oracle: exact integer identities in num-bigint / u128 (e.g. lhs + a*b = lhs' + carry*2^(64n); lhs_old + borrow*2^(64n) = lhs_new + a*b). Non-trivial: non-empty operands with a zero or all-ones limb, or an accumulator shorter than the product, or a carry rippling beyond the product window (addmul); every non-empty case for the other kernels; distinct by inputs.",
+        rule_text: "slice-level generators: accumulator/operand lengths 0..=10 independently; contents from the boundary alphabet reshaped with zero low / high / middle limbs, all-ones limbs and runs, accumulators pre-filled with all-ones; equal lengths where a kernel states it (addmul_n panics on unequal lengths, which is checked); adc_n/sbb_n with rhs at least as long as lhs and a full carry / borrow word (0, 1, 2, u64::MAX, alphabet; exact identity incl. carry-out 2); scalar adc/sbb enumerated over the full square of a ~500-word boundary alphabet x 8 carry words, carrying_add/borrowing_sub x both flags; shift amounts 0..=63; cmp on equal-length slices incl. equal / one-limb-different pairs. Oracle: exact integer identities in num-bigint / u128 (e.g. lhs + a*b = lhs' + carry*2^(64n); lhs_old + borrow*2^(64n) = lhs_new + a*b). Non-trivial: non-empty operands with a zero or all-ones limb, or an accumulator shorter than the product, or a carry rippling beyond the product window (addmul); every non-empty case for the other kernels; distinct by inputs.",
         assumptions: vec![
             "num-bigint / u128 arithmetic is correct (oracle)",
-            "adc_n/sbb_n carry-in > 1 and unequal lengths for addmul_nx1/submul_nx1 are outside the callers' domain and not asserted",
+            "the carry / borrow parameter of adc, sbb, adc_n, sbb_n is taken to be a full u64 word as the signatures state (in-tree callers only pass 0 or 1); unequal lengths for addmul_nx1/submul_nx1 are outside the callers' domain and not asserted",
         ],
         thorough_mult: 50,
     };
